@@ -49,6 +49,30 @@ type vcConn struct {
 	ioAfterClose int
 	slept   bool
 	more    func(c *vcConn) // called when the script is exhausted and the client reads on: may append segments
+	// TLS markers (engine's transparent crypto/tls model): bytes written inside
+	// TLS are kept apart from bytes written to the raw connection
+	tls        bool
+	serverName string
+	tlsWrote   []byte
+}
+
+// VTLSHandshake, VTLSWrite and VTLSRead are called by the engine's model of
+// *tls.Conn instead of Write / Read (the real crypto/tls never calls them).
+func (c *vcConn) VTLSHandshake(serverName string) { c.tls = true; c.serverName = serverName }
+func (c *vcConn) VTLSWrite(b []byte) (int, error) {
+	c.writes++
+	c.tlsWrote = append(c.tlsWrote, b...)
+	return len(b), nil
+}
+func (c *vcConn) VTLSRead(b []byte) (int, error) { return c.Read(b) }
+
+func vcContains(hay []byte, needle string) bool {
+	for i := 0; i+len(needle) <= len(hay); i++ {
+		if string(hay[i:i+len(needle)]) == needle {
+			return true
+		}
+	}
+	return false
 }
 
 func (c *vcConn) sleepOnce() {
